@@ -3,28 +3,24 @@ use noodles_bgzf as bgzf;
 use noodles_core::Position;
 
 use super::Index;
-use crate::binning_index::index::reference_sequence::{bin::Chunk, parent_id, reg2bin};
+use crate::binning_index::index::reference_sequence::{bin::Chunk, reg2bin};
 
 /// A binned index.
 pub type BinnedIndex = IndexMap<usize, bgzf::VirtualPosition>;
 
 impl Index for BinnedIndex {
     fn min_offset(&self, min_shift: u8, depth: u8, start: Position) -> bgzf::VirtualPosition {
-        let end = start;
-        let mut bin_id = reg2bin(start, end, min_shift, depth);
+        // The offset of a bin only bounds the records placed in that bin, and a record that
+        // overlaps `start` can be in any bin that does not end before `start`: an ancestor of the
+        // leaf bin, the leaf bin itself, or, for records that begin later, any bin after it.
+        // Taking the offset of the nearest present ancestor alone can skip such records.
+        let start = usize::from(start) - 1;
 
-        loop {
-            if let Some(position) = self.get(&bin_id) {
-                return *position;
-            }
-
-            bin_id = match parent_id(bin_id) {
-                Some(id) => id,
-                None => break,
-            }
-        }
-
-        bgzf::VirtualPosition::default()
+        self.iter()
+            .filter(|(id, _)| bin_end(**id, min_shift, depth).is_none_or(|end| start <= end))
+            .map(|(_, position)| *position)
+            .min()
+            .unwrap_or_default()
     }
 
     fn last_first_start_position(&self) -> Option<bgzf::VirtualPosition> {
@@ -42,6 +38,26 @@ impl Index for BinnedIndex {
             })
             .or_insert(chunk.start());
     }
+}
+
+// Returns the 0-based, inclusive end of the interval covered by the given bin, or `None` if the ID
+// is not in the binning scheme or the end is not representable.
+fn bin_end(id: usize, min_shift: u8, depth: u8) -> Option<usize> {
+    let mut level_start = 0usize;
+    let mut level_len = 1usize;
+
+    for level in 0..=depth {
+        if id - level_start < level_len {
+            let shift = u32::from(min_shift) + 3 * u32::from(depth - level);
+            let n = id - level_start + 1;
+            return n.checked_shl(shift).filter(|m| m >> shift == n).map(|m| m - 1);
+        }
+
+        level_start += level_len;
+        level_len = level_len.checked_mul(8)?;
+    }
+
+    None
 }
 
 #[cfg(test)]
